@@ -54,8 +54,12 @@ ASSUMPTIONS = [
     "of calls and of disp() right after data_/grid_/condition_/reset_parameters only",
     "I-10: a linked transform reads the buffered parameters of the transform it is linked to (what that transform last "
     "evaluated); `current` in the model is defined that way",
-    "I-1: exceptions are compared between code and model but are not C09 violations, except F-07 which is keyed here "
-    "because this check hosts the C07_shared_params clause (linked inverses are in C09's quantifier)",
+    "I-1: exceptions are compared between code and model but are not C09 violations, except a TypeError of "
+    "inverse(link=True)/.inv (the former F-07, repaired by 20bab42), which is keyed here because this check hosts the "
+    "C07_shared_params clause (linked inverses are in C09's quantifier)",
+    "the model follows /repo after the repairs 1ce28a8 (B-spline grid_ clears buffers), 3110eb9 (__copy__ copies the "
+    "_parameters container), 20bab42 (link_ deletes a registered parameter 'params' first); 4597ff0 (has_parameters of a "
+    "linked transform) concerns parameter squashing of linear transforms and has no counterpart in this state machine",
     "torch.nn.Module attribute semantics (__setattr__/__getattr__/__delattr__/register_buffer/register_parameter) are "
     "modelled as documented (typed slots, lookup order __dict__ → _parameters → _buffers → _modules)",
 ]
@@ -376,7 +380,7 @@ class Machine:
         outs = []
         for op in hist:
             outs.append(self.step(op))
-            if op[0] in ("grid_", "gridcopy", "data_", "datacopy", "link_", "link", "inverse") and undersized(self):
+            if undersized(self):      # (a refreshed `p` of a link source can make its linked transforms undersized)
                 outs[-1] = "skip:undersized"
                 break
         return outs
@@ -446,13 +450,16 @@ def nontrivial(c) -> bool:
 # ----------------------------------------------------------------------------- pattern streams (exhaustive)
 def setup_kind(cls: str, kind: str, g: int = 0) -> Tuple[List[list], int]:
     """ops creating one object of class `cls` whose params are of `kind` (incl. linked kinds) → (ops, target id)"""
+    if kind.startswith("paramlinked:"):      # a Parameter-held transform that gets linked (link_ deletes the parameter)
+        src = kind[len("paramlinked:"):]
+        return [["mk", cls, src, 5, g], ["mk", cls, "param", 6, g], ["link_", 1, 0]], 1
     if kind.startswith("linked:"):
         src = kind[len("linked:"):]
         return [["mk", cls, src, 5, g], ["mk", cls, "buffer", 6, g], ["link_", 1, 0]], 1
     return [["mk", cls, kind, 5, g]], 0
 
 
-ALLKINDS = KINDS + ["linked:buffer", "linked:fn:1", "linked:param"]
+ALLKINDS = KINDS + ["linked:buffer", "linked:fn:1", "linked:param", "paramlinked:buffer", "paramlinked:param"]
 
 
 def gen_replace_disp(rng, tier):
@@ -462,7 +469,7 @@ def gen_replace_disp(rng, tier):
         pre, t = setup_kind(cls, kind)
         for rep in (["data_", t, 9], ["grid_", t, 1], ["grid_", t, 0], ["grid_", t, 2], ["condition_", t, 3],
                     ["reset", t]):
-            if rep[0] == "grid_" and rep[2] > 0 and kind.startswith("linked:") and cls in ("ffd", "svffd"):
+            if rep[0] == "grid_" and rep[2] > 0 and "linked:" in kind and cls in ("ffd", "svffd"):
                 continue    # a linked B-spline transform is re-gridded together with its source (ASSUMPTIONS)
             for warm in ([], [["call", t]], [["update", t]], [["call", t], ["inplace", t, 7]]):
                 yield {"hist": pre + warm + [rep, ["disp", t], ["call", t], ["dataget", t]]}
@@ -491,6 +498,8 @@ def gen_sharing(rng, tier):
     for cls, kind in itertools.product(["svf1", "svf0", "svffd", "dvf1", "ffd"], KINDS):
         for link, ub in itertools.product([0, 1], [0, 1]):
             for warm in ([], [["call", 0]]):
+                if warm and tier == "quick" and not ub:
+                    continue      # the warm-up only matters for update_buffers=True; all four in thorough
                 for edits in SHARE_EDITS:
                     yield {"hist": [["mk", cls, kind, 5, 0]] + warm + [["inverse", 0, link, ub]] + edits
                            + [["call", 0], ["call", 1], ["disp", 1], ["dataget", 1]]}
@@ -541,11 +550,12 @@ def undersized(m: "Machine") -> bool:
             return True
         if cls not in ("ffd", "svffd"):
             continue
-        p = t.params
+        p = getattr(t, "params", None)
         if isinstance(p, SpatialTransform):
-            p = p.params if isinstance(p.params, torch.Tensor) else getattr(p, "p", None)
+            pp = getattr(p, "params", None)
+            p = pp if isinstance(pp, torch.Tensor) else getattr(p, "p", None)
         elif not isinstance(p, torch.Tensor):
-            p = getattr(t, "p", None) if p is not None else None
+            p = None       # own callable: `p` is re-predicted for the current grid by the next update()
         if isinstance(p, torch.Tensor) and tuple(p.shape[2:]) < tuple(t.data_shape[1:]):
             return True
     return False
@@ -627,6 +637,8 @@ def _random_history(rng: random.Random, nops: int, composites: bool) -> Optional
     rng.shuffle(ids)
     for o in ids[:4]:
         emit([rng.choice(["call", "call", "disp"]), o])
+        if undersized(m):
+            return None
     return hist
 
 
@@ -683,11 +695,11 @@ def fresh_like(t, cls: str):
     """a newly constructed transform holding what `t` holds now (params / grid / condition / inversion);
     None when no comparable fresh transform exists (no params; parameter shape not of t's own grid)"""
     ctor, kw = CTOR[cls]
-    p = t.params
+    p = getattr(t, "params", None)
     if p is None:
         return None
     if isinstance(p, SpatialTransform):     # I-10: what the linked-to transform's data() returns now
-        if p.params is None:
+        if getattr(p, "params", None) is None:
             return None
         p = p.data()
     if isinstance(p, torch.Tensor):
@@ -809,7 +821,7 @@ def gen_accessor_oracle(rng, tier):
 
 def check_accessor(c):
     """a non-in-place accessor returns a shallow copy; the ORIGINAL must keep evaluating what it held
-    (F-15a: `data(arg)` / `unlink()` write through the shared `_parameters` container)"""
+    (former F-15a, repaired by 3110eb9: `data(arg)` / `unlink()` / `grid(g)` wrote through the shared `_parameters` container)"""
     m = Machine(Mode(ORACLE_MODE_AMP))
     m.step(["mk", c["cls"], c["kind"], 5, 0])
     t = m.objs[0]
@@ -919,7 +931,7 @@ ORACLES = [
     Oracle("shared_params", gen_shared, check_shared,
            doc="C07_shared_params on the implementation incl. `.inv`: forward and inverse evaluate the same parameters"),
     Oracle("accessors", gen_accessor_oracle, check_accessor,
-           doc="non-in-place accessors leave the original's evaluation unchanged (F-15a)"),
+           doc="non-in-place accessors leave the original's evaluation unchanged (former F-15a)"),
     Oracle("regrid_world", gen_regrid, check_regrid,
            doc="exploration: grid_ preserves the world deformation of smooth fields within the stated tolerance"),
 ]
